@@ -196,76 +196,46 @@ func CheckExactQueriesMatch(normalizedQuery string, setOfQueries map[string]bool
 	return true
 }
 
-// CheckTableNamesMatch evaluates if query contains table presented in specified set of tables
+// CheckTableNamesMatch evaluates if query contains table presented in specified set of tables.
+// Tables are collected at any depth of SELECT (joins, derived tables, sub-selects in expressions),
+// UNION and INSERT (target and INSERT ... SELECT source) statements.
 func CheckTableNamesMatch(parsedQuery sqlparser.Statement, setOfTables map[string]bool) (bool, bool) {
-	atLeastOneTableNameMatch := false
-	allTableNamesMatch := false
-
-	switch query := parsedQuery.(type) {
-	case *sqlparser.Select:
-		atLeastOneTableNameMatch, allTableNamesMatch = checkTableExprsMatch(query.From, setOfTables)
-		break
-	case *sqlparser.Insert:
-		if setOfTables[query.Table.Name.String()] {
-			atLeastOneTableNameMatch = true
-			allTableNamesMatch = true
-		} else {
-			atLeastOneTableNameMatch = false
-			allTableNamesMatch = false
-		}
+	switch parsedQuery.(type) {
+	case *sqlparser.Select, *sqlparser.Union, *sqlparser.ParenSelect, *sqlparser.Insert:
 		break
 	default:
 		//TODO other query types
 		return false, false
 	}
-
+	atLeastOneTableNameMatch := false
+	allTableNamesMatch := true
+	for _, tableName := range collectTableNames(parsedQuery, nil) {
+		if setOfTables[tableName] {
+			atLeastOneTableNameMatch = true
+		} else {
+			allTableNamesMatch = false
+		}
+	}
 	return atLeastOneTableNameMatch, allTableNamesMatch
 }
 
-// Tables matchers
-func checkTableExprsMatch(tables sqlparser.TableExprs, setOfTables map[string]bool) (bool, bool) {
-	oneTableMatch := false
-	allTablesMatch := false
-	counter := 0
-	for _, tableExpr := range tables {
-		oneTableMatchInternal, allTablesMatchInternal := checkTableExprMatch(tableExpr, setOfTables)
-		if oneTableMatchInternal {
-			oneTableMatch = true
-			if allTablesMatchInternal {
-				counter++
-			} else {
-				break
+// collectTableNames returns names of all tables that statement reads from or inserts into
+func collectTableNames(node sqlparser.SQLNode, tableNames []string) []string {
+	_ = sqlparser.Walk(func(node sqlparser.SQLNode) (bool, error) {
+		switch node := node.(type) {
+		case *sqlparser.AliasedTableExpr:
+			if tableName, ok := node.Expr.(sqlparser.TableName); ok {
+				tableNames = append(tableNames, sqlparser.String(tableName))
 			}
+		case *sqlparser.Insert:
+			tableNames = append(tableNames, node.Table.Name.String())
+			// not visited by Walk
+			tableNames = collectTableNames(node.Returning, tableNames)
+		case *sqlparser.Union:
+			// not visited by Walk
+			tableNames = collectTableNames(node.OrderBy, tableNames)
 		}
-	}
-	if counter == len(tables) {
-		allTablesMatch = true
-	}
-	return oneTableMatch, allTablesMatch
-}
-
-func checkTableExprMatch(table sqlparser.TableExpr, setOfTables map[string]bool) (bool, bool) {
-	oneTableMatch := false
-	allTablesMatch := false
-
-	switch tbl := table.(type) {
-	case *sqlparser.AliasedTableExpr:
-		if setOfTables[sqlparser.String(tbl.Expr)] {
-			oneTableMatch = true
-			allTablesMatch = true
-		}
-	case *sqlparser.JoinTableExpr:
-		oneLeftTableMatchInternal, allLeftTablesMatchInternal := checkTableExprMatch(tbl.LeftExpr, setOfTables)
-		oneRightTableMatchInternal, allRightTablesMatchInternal := checkTableExprMatch(tbl.RightExpr, setOfTables)
-		if oneLeftTableMatchInternal || oneRightTableMatchInternal {
-			oneTableMatch = true
-		}
-		if allLeftTablesMatchInternal && allRightTablesMatchInternal {
-			allTablesMatch = true
-		}
-
-	case *sqlparser.ParenTableExpr:
-		oneTableMatch, allTablesMatch = checkTableExprsMatch(tbl.Exprs, setOfTables)
-	}
-	return oneTableMatch, allTablesMatch
+		return true, nil
+	}, node)
+	return tableNames
 }
